@@ -255,6 +255,44 @@ def matchHere (anchorR : Bool) : List (Atom × Quant) → List Char → Bool
     | c :: t => atomMatch a c && matchHere anchorR ((a, .star) :: r) t
 termination_by items l => (l.length, items.length)
 
+def optMax : Option Nat → Option Nat → Option Nat
+  | none, b => b
+  | a, none => a
+  | some x, some y => some (if x < y then y else x)
+
+/-- length of the LONGEST match of the items at the start of `l` (`none`: no match there) -/
+def matchLen (anchorR : Bool) : List (Atom × Quant) → List Char → Option Nat
+  | [], l => if !anchorR || l.isEmpty then some 0 else none
+  | (a, .one) :: r, l =>
+    match l with
+    | [] => none
+    | c :: t => if atomMatch a c then (matchLen anchorR r t).map (· + 1) else none
+  | (a, .opt) :: r, l =>
+    optMax (matchLen anchorR r l)
+      (match l with
+       | [] => none
+       | c :: t => if atomMatch a c then (matchLen anchorR r t).map (· + 1) else none)
+  | (a, .star) :: r, l =>
+    optMax (matchLen anchorR r l)
+      (match l with
+       | [] => none
+       | c :: t => if atomMatch a c then (matchLen anchorR ((a, .star) :: r) t).map (· + 1) else none)
+  | (a, .plus) :: r, l =>
+    match l with
+    | [] => none
+    | c :: t => if atomMatch a c then (matchLen anchorR ((a, .star) :: r) t).map (· + 1) else none
+termination_by items l => (l.length, items.length)
+
+/-- leftmost-longest match: (0-based start, length) -/
+def findMatchFrom (re : Regex) : List Char → Nat → Option (Nat × Nat)
+  | [], pos => (matchLen re.anchorR re.items []).map fun n => (pos, n)
+  | c :: t, pos =>
+    match matchLen re.anchorR re.items (c :: t) with
+    | some n => some (pos, n)
+    | none => if re.anchorL then none else findMatchFrom re t (pos + 1)
+
+def findMatch (re : Regex) (s : String) : Option (Nat × Nat) := findMatchFrom re s.toList 0
+
 def matchFrom (re : Regex) : List Char → Bool
   | [] => matchHere re.anchorR re.items []
   | c :: t => matchHere re.anchorR re.items (c :: t) || matchFrom re t
@@ -322,11 +360,37 @@ def substLit (global : Bool) (pat repl target : String) : Option (Nat × String)
     let r := substAux global pat.toList rep (target.toList.length + 1) target.toList
     some (r.1, String.ofList r.2)
 
+/-- regular-expression sub/gsub, leftmost-longest, non-overlapping.  `none` = outside the profile (the expression
+matched the empty string somewhere — the rules for empty matches differ between awks —, or a bad replacement). -/
+def substReAux (global : Bool) (re : Regex) (repl : List Char) : Nat → Bool → List Char → Option (Nat × List Char)
+  | 0, _, _ => none
+  | fuel + 1, atStart, l =>
+    let tryHere : Option Nat := if re.anchorL && !atStart then none else matchLen re.anchorR re.items l
+    match tryHere with
+    | some 0 => none
+    | some n =>
+      match expandRepl (l.take n) repl with
+      | none => none
+      | some rep =>
+        if global then
+          (substReAux global re repl fuel false (l.drop n)).map fun r => (r.1 + 1, rep ++ r.2)
+        else some (1, rep ++ l.drop n)
+    | none =>
+      match l with
+      | [] => some (0, [])
+      | c :: t => (substReAux global re repl fuel false t).map fun r => (r.1, c :: r.2)
+
+def substRegex (global : Bool) (re : Regex) (repl target : String) : Option (Nat × String) :=
+  (substReAux global re repl.toList (target.toList.length + 2) true target.toList).map fun r => (r.1, String.ofList r.2)
+
 /-! ## printf -/
 
 structure Spec where
   left : Bool := false
   zero : Bool := false
+  plus : Bool := false
+  space : Bool := false
+  alt : Bool := false
   width : Option Nat := none
   prec : Option Nat := none
   deriving Repr, Inhabited
@@ -344,11 +408,21 @@ def toBase (b : Nat) (upper : Bool) (n : Nat) : List Char := toBaseAux b upper (
 
 def rep (n : Nat) (c : Char) : List Char := List.replicate n c
 
+def fmtNumP (sp : Spec) (sign : List Char) (ds : List Char) : List Char :=
+  let ds := match sp.prec with
+    | some p => rep (p - ds.length) '0' ++ ds
+    | none => ds
+  let len := sign.length + ds.length
+  let w := sp.width.getD 0
+  if sp.left then sign ++ ds ++ rep (w - len) ' '
+  else if sp.zero && sp.prec.isNone then sign ++ rep (w - len) '0' ++ ds
+  else rep (w - len) ' ' ++ sign ++ ds
+
 def fmtNum (sp : Spec) (neg : Bool) (ds : List Char) : List Char :=
   let ds := match sp.prec with
     | some p => rep (p - ds.length) '0' ++ ds
     | none => ds
-  let sign : List Char := if neg then ['-'] else []
+  let sign : List Char := if neg then ['-'] else if sp.plus then ['+'] else if sp.space then [' '] else []
   let len := sign.length + ds.length
   let w := sp.width.getD 0
   if sp.left then sign ++ ds ++ rep (w - len) ' '
@@ -365,15 +439,18 @@ def fmtText (sp : Spec) (s : List Char) : List Char :=
 def takeDigits (l : List Char) : Nat × List Char :=
   (parseNat (l.takeWhile Char.isDigit), l.dropWhile Char.isDigit)
 
-/-- parse flags `-`/`0` -/
+/-- parse flags `-` `0` `+` space `#` -/
 def parseFlags : List Char → Spec → Spec × List Char
   | '-' :: t, sp => parseFlags t { sp with left := true }
   | '0' :: t, sp => parseFlags t { sp with zero := true }
+  | '+' :: t, sp => parseFlags t { sp with plus := true }
+  | ' ' :: t, sp => parseFlags t { sp with space := true }
+  | '#' :: t, sp => parseFlags t { sp with alt := true }
   | l, sp => (sp, l)
 
-/-- after `%`: flags, width, precision; returns the spec and the rest starting at the conversion char -/
-def parseSpec (l : List Char) : Spec × List Char :=
-  let (sp, l) := parseFlags l {}
+/-- after the flags (and a possible `*`): width, precision; returns the spec and the rest starting at the
+conversion char -/
+def parseSpecW (sp : Spec) (l : List Char) : Spec × List Char :=
   let (sp, l) : Spec × List Char := match l with
     | c :: _ => if c.isDigit then let (w, r) := takeDigits l; ({ sp with width := some w }, r) else (sp, l)
     | [] => (sp, l)
@@ -381,8 +458,69 @@ def parseSpec (l : List Char) : Spec × List Char :=
   | '.' :: r => let (p, r2) := takeDigits r; ({ sp with prec := some p }, r2)
   | _ => (sp, l)
 
+/-! ### %f %e %g of integers (exact: the value is an integer, rounding of the decimal expansion is half-to-even) -/
+
+def pow10 : Nat → Nat
+  | 0 => 1
+  | k + 1 => 10 * pow10 k
+
+/-- the first `k` significant digits of `n > 0` (which has `nd` digits), rounded half-to-even, and the decimal
+exponent of the result (a carry such as 999 → 1.00e+03 raises it) -/
+def roundSig (n nd k : Nat) : Nat × Nat :=
+  if nd ≤ k then (n * pow10 (k - nd), nd - 1)
+  else
+    let d := pow10 (nd - k)
+    let q := n / d
+    let r := n % d
+    let q := if r * 2 > d || (r * 2 == d && q % 2 == 1) then q + 1 else q
+    if q == pow10 k then (q / 10, nd) else (q, nd - 1)
+
+def stripZeros (l : List Char) : List Char := (l.reverse.dropWhile (· == '0')).reverse
+
+/-- digits of an e-style number: mantissa `q` with `k` digits, exponent `x` -/
+def eStyle (upper alt strip : Bool) (q k x : Nat) : List Char :=
+  let ds := natDigits q
+  let ds := rep (k - ds.length) '0' ++ ds
+  let frac := if strip then stripZeros (ds.drop 1) else ds.drop 1
+  let xs := natDigits x
+  let xs := if xs.length < 2 then '0' :: xs else xs
+  ds.take 1 ++ (if frac.isEmpty then (if alt then ['.'] else []) else '.' :: frac) ++
+    [if upper then 'E' else 'e', '+'] ++ xs
+
+/-- the unsigned digits of `%f` / `%e` / `%g` (and upper-case variants) applied to the natural number `n` -/
+def fmtFloatDigits (sp : Spec) (conv : Char) (n : Nat) : List Char :=
+  let c := conv.toLower
+  let upper := conv.isUpper
+  let p := sp.prec.getD 6
+  let nd := (natDigits n).length
+  if c == 'f' then
+    natDigits n ++ (if p == 0 then (if sp.alt then ['.'] else []) else '.' :: rep p '0')
+  else if c == 'e' then
+    if n == 0 then eStyle upper sp.alt false 0 (p + 1) 0
+    else let (q, x) := roundSig n nd (p + 1); eStyle upper sp.alt false q (p + 1) x
+  else
+    -- %g: P significant digits; e-style when the exponent is at least P
+    let P := if p == 0 then 1 else p
+    if n == 0 then ['0']
+    else
+      let (q, x) := roundSig n nd P
+      if x < P then
+        -- f-style with P-1-x decimals, all zero for an integer, stripped: the (rounded) integer itself
+        natDigits (q / pow10 (P - 1 - x))
+      else eStyle upper false true q P x
+
 /-- format one conversion; `none` = outside the profile -/
 def fmtConv (sp : Spec) (conv : Char) (v : Val) : Option (List Char) :=
+  if conv == 'f' || conv == 'F' || conv == 'e' || conv == 'E' || conv == 'g' || conv == 'G' then
+    -- (`%F` is not in POSIX awk; `#` with %g keeps trailing zeros: both outside the profile)
+    if conv == 'F' || (sp.alt && conv.toLower == 'g') then none else
+    match toNum v with
+    | none => none
+    | some i =>
+      if i.natAbs > 1000000000000000 then none else
+      some (fmtNumP { sp with prec := none } (if i < 0 then ['-'] else if sp.plus then ['+'] else if sp.space then [' '] else [])
+              (fmtFloatDigits sp conv i.natAbs))
+  else
   if conv == 'd' || conv == 'i' then
     (toNum v).map fun i => fmtNum sp (i < 0) (natDigits i.natAbs)
   else if conv == 'x' || conv == 'X' || conv == 'o' || conv == 'u' then
@@ -391,11 +529,24 @@ def fmtConv (sp : Spec) (conv : Char) (v : Val) : Option (List Char) :=
     | some i =>
       if i < 0 then none else
       let b := if conv == 'o' then 8 else if conv == 'u' then 10 else 16
-      some (fmtNum sp false (toBase b (conv == 'X') i.toNat))
+      let ds := toBase b (conv == 'X') i.toNat
+      -- `+` and space are defined for signed conversions only
+      if sp.plus || sp.space then none else
+      if sp.alt && conv == 'u' then none else
+      if sp.alt && conv == 'o' then
+        -- `#o`: the precision is raised so that the first digit is 0
+        let ds' := match sp.prec with
+          | some p => rep (p - ds.length) '0' ++ ds
+          | none => ds
+        let ds' := if ds'.head? == some '0' then ds' else '0' :: ds'
+        some (fmtNumP { sp with prec := none } [] ds')
+      else if sp.alt && i != 0 then
+        some (fmtNumP sp (if conv == 'X' then ['0', 'X'] else ['0', 'x']) ds)
+      else some (fmtNumP sp [] ds)
   else if conv == 's' then
-    if sp.zero then none else some (fmtText sp (toStr v).toList)
+    if sp.zero || sp.plus || sp.space || sp.alt then none else some (fmtText sp (toStr v).toList)
   else if conv == 'c' then
-    if sp.zero || sp.prec.isSome then none else
+    if sp.zero || sp.prec.isSome || sp.plus || sp.space || sp.alt then none else
     match v with
     | .str s => some (fmtText sp (s.toList.take 1))
     | .uninit => none
@@ -412,11 +563,27 @@ def formatAux : Nat → List Char → List Val → Option (List Char)
     | [] => some []
     | '%' :: '%' :: t => (formatAux fuel t args).map ('%' :: ·)
     | '%' :: t =>
-      let (sp, r) := parseSpec t
+      let (sp0, r0) := parseFlags t {}
+      -- `*`: the field width is the next argument (a negative one means left-justified)
+      let star : Option (Spec × List Char × List Val) :=
+        match r0 with
+        | '*' :: r1 =>
+          match args with
+          | w :: vs =>
+            match toNum w with
+            | some n => if n < 0 then some ({ sp0 with left := true, width := some (-n).toNat }, r1, vs)
+                        else some ({ sp0 with width := some n.toNat }, r1, vs)
+            | none => none
+          | [] => none
+        | _ => some (sp0, r0, args)
+      match star with
+      | none => none
+      | some (sp1, r1, args1) =>
+      let (sp, r) := parseSpecW sp1 r1
       match r with
       | [] => none
       | conv :: r2 =>
-        match args with
+        match args1 with
         | [] => none
         | v :: vs =>
           match fmtConv sp conv v with
